@@ -431,9 +431,15 @@ class Inliner:
                 if all(L.id in stored and L.id not in binding and T.id not in in_args and (L.id == T.id or T.id not in names_g) for L, T in zip(Ls, Ts)):
                     for L, T in zip(Ls, Ts):
                         mapping[L.id] = T.id
+        names_in_helper = _all_names(gn)
         for p, v in binding.items():
             same = isinstance(v, ast.Name) and v.id == p and p not in stored
             if same:
+                continue
+            # an argument that is a plain name, for a parameter the helper never re-binds: the parameter *is* that name
+            # (no `recorder = cr` alias that every rule would have to see through), unless the name means something else in the helper
+            if isinstance(v, ast.Name) and p not in stored and v.id not in names_in_helper and v.id not in mapping.values():
+                mapping[p] = v.id
                 continue
             new = p
             if p in caller_names and not (isinstance(v, ast.Name) and v.id == p):
